@@ -77,6 +77,10 @@ func (h *JSONHybridHandler) Handle(ctx context.Context, r slog.Record) (err erro
 
 	bufTextHdlr.reset()
 
+	// Clone the record before adding the attributes, since its copies share
+	// state and the caller may handle the same record again.  See
+	// [slog.Record.Clone].
+	r = r.Clone()
 	r.AddAttrs(h.textAttrs...)
 
 	err = bufTextHdlr.handler.Handle(ctx, r)
